@@ -32,8 +32,9 @@ class Scen:
 class World:
     """one configuration: scenarios pre-queued (parser finished) or delivered by a lazy parser"""
 
-    def __init__(self, scens, limit, fail_fast=False, parser=None, sleep_polls=1):
+    def __init__(self, scens, limit, fail_fast=False, parser=None, sleep_polls=1, empty_rule_features=()):
         self.scens, self.limit, self.fail_fast, self.parser = scens, limit, fail_fast, parser
+        self.empty_rule_features = tuple(empty_rule_features)   # features that consist of one rule without scenarios (all filtered out)
         self.sleep_polls = sleep_polls      # how many polls of execute() the sleeper thread of a retry delay stays asleep
 
 
@@ -177,8 +178,11 @@ def simulate(chk, world, max_polls=40, loop_bound=14, sleep_polls=1):
         ex_.add(z3.ULT(z3.BitVec('delay', 64), bv(1 << 40)))
         ex_.env['map_order'] = 'insertion'
         serial, conc = [], []
+        # worlds without a lazy parser get an EAGER one (every feature ready at the first poll): the storage is then filled
+        # by the real insert_features / Features::insert, so whatever bookkeeping insert keeps is consistent
+        parser = world.parser if world.parser is not None else [(0, fi) for fi in sorted(set(s_.feature for s_ in world.scens))]
         for s in world.scens:
-            if world.parser is not None:
+            if parser is not None:
                 continue
             q = sched.QEntry(s.name)
             q.pid, q.ret, q.cur, q.left = s.pid, bv(0 if s.budget is None else 1), bv(0), bv(s.budget or 0)
@@ -198,7 +202,7 @@ def simulate(chk, world, max_polls=40, loop_bound=14, sleep_polls=1):
             ents.append((Adt('runner::basic::ScenarioType', {}, six.Ty['Concurrent']), Obj('vec', items=tuple(entry_value(q, s) for q, s in conc), ty='Vec')))
         m = M.new_assoc('runner::basic::ScenarioType', 'Vec<%s>' % sched.ENTRY_TY, ents)
         mutex_cell = Cell(Adt('Mutex<Scenarios>', {(None, 0): m}), name='storage')
-        fin_cell = Cell(Adt('AtomicBool', {(None, 0): z3.BoolVal(world.parser is None)}), name='finished')
+        fin_cell = Cell(Adt('AtomicBool', {(None, 0): z3.BoolVal(parser is None)}), name='finished')
         fv = Adt('runner::basic::Features', {(None, six.F['scenarios']): Ref(mutex_cell, (), pid=bv(0x51)),
                                              (None, six.F['finished']): Ref(fin_cell, (), pid=bv(0x52))})
         fv = features_extra_fields(prog, fv)
@@ -226,8 +230,8 @@ def simulate(chk, world, max_polls=40, loop_bound=14, sleep_polls=1):
         cx = Ref(Cell(Lazy('Context', 'cx')), ())
         body = ex_.prog.poll_body(co.ty, ex_.coro_origin.get(co.ty))
         ing = None
-        if world.parser is not None:
-            ing = make_ingester(ex_, M, prog, world, fv, real['insert_features'])
+        if parser is not None:
+            ing = make_ingester(ex_, M, prog, world, fv, real['insert_features'], parser)
         polls, done, exe_done = 0, False, False
         while polls < max_polls:
             polls += 1
@@ -292,7 +296,7 @@ def simulate(chk, world, max_polls=40, loop_bound=14, sleep_polls=1):
     return out, ex
 
 
-def make_ingester(ex, M, prog, world, fv, real):
+def make_ingester(ex, M, prog, world, fv, real, parser):
     """the real insert_features coroutine over a lazy parser stream of concrete-shaped features"""
     from checks import tagsets
     insf = find_fn(prog, 'insert_features')
@@ -301,12 +305,14 @@ def make_ingester(ex, M, prog, world, fv, real):
     R = prog.tables.struct_fields('gherkin::Rule')
     six = sched.SIdx(prog)
     items = []
-    for late, fi in world.parser:
+    for late, fi in parser:
         if fi == 'end':
             items.append((late, M.STREAM_END))      # the stream ends `late` polls after its last item
             continue
         tops = [s for s in world.scens if s.feature == fi and s.rule is None]
         rules = sorted(set(s.rule for s in world.scens if s.feature == fi and s.rule is not None))
+        if fi in getattr(world, 'empty_rule_features', ()):
+            rules = [9]
 
         def scv(s):
             return tagsets.gherkin_node(prog, 'gherkin::Scenario', s.name, [], {})
@@ -616,6 +622,8 @@ def world_script(world, res, scale=1):
         lines += ['feature late=%d' % (late_of.get(fi, 0) * scale), '| Feature: f%d' % fi]
         tops = [s for s in world.scens if s.feature == fi and s.rule is None]
         rules = sorted(set(s.rule for s in world.scens if s.feature == fi and s.rule is not None))
+        if fi in getattr(world, 'empty_rule_features', ()):
+            rules = [9]
 
         def emit(s, ind):
             tags = []
